@@ -497,7 +497,9 @@ fn expand_si(
                 symbols,
                 aliases: Vec::new(),
                 ratio: unit.ratio * prefix.ratio(),
-                difference: unit.difference,
+                // the offset is given in the unit itself, so it has to be scaled
+                // too: 1000 m°C is 1 °C
+                difference: unit.difference / prefix.ratio(),
                 physical_quantity: unit.physical_quantity,
                 system: unit.system,
             },                expand_si: false,
